@@ -110,7 +110,7 @@ Lemma set_heartbeat_all_rn k : forall r i iv off, rn (set_heartbeat_all k r i iv
 Proof.
   induction k as [|k IH]; intros r i iv off; [reflexivity|]. cbn [set_heartbeat_all]. cbv zeta.
   destruct (_ =? 0); [rewrite IH; reflexivity|]. rewrite IH.
-  destruct (negb _ || negb _); [|reflexivity]. unfold millis64. destruct (w64 r); reflexivity.
+  destruct (negb _ || negb _); cbn [orb]; [|destruct (ss_next _ =? ss_disabled); [|reflexivity]]; unfold millis64; destruct (w64 r); reflexivity.
 Qed.
 
 (* ---------- the messages handed to SendMsg ---------- *)
